@@ -50,6 +50,12 @@ def check(repo, col, tier):
     from . import c01, c01_solver
     col.rule("R-C13-layout", "after re-initialisation the padded solver layout addresses every compartment of every branch, for unequal counts", 8)
     c01._layout(repo, col, "R-C13-layout")
+    # ... and the custom solver must cope with the padded blocks that unequal counts produce: padding rows stay decoupled identity
+    # rows, and every elimination step addresses the LAST REAL compartment of a parent, not the end of its padded block
+    col.rule("R-C13-assembly", "padded solver rows are identity rows; real rows carry the backward-Euler entries", 8)
+    c01_solver._assembly_jaxley(repo, col, "R-C13-assembly")
+    col.rule("R-C13-elim", "elimination steps address each parent's last real compartment and each child's first", 10)
+    c01_solver._elim(repo, col, "R-C13-elim")
     col.rule("R-C13-ends", "re-initialised branch-point edges attach at each branch's own first / last compartment", 4)
     c01_solver._ends(repo, col, "R-C13-ends")
     col.rule("R-C13-uniform", "the branch is tested for uniformity by comparing values, never through floating-point statistics", 4)
@@ -154,6 +160,12 @@ def _partition(col, R, fi, reg, repo=None):
         col.unk(R, fi, f"set_ncomp: rewrite of `{reg}`", "store into the registry not found", node=fi.node)
         return
     st = sts[-1]
+    # a local helper that computes the new entry (`_reindex_group(old)`) is looked through
+    class _St:
+        pass
+    _s2 = _St()
+    _s2.value, _s2.guards, _s2.node = idx.inline(repo, fi, st.value, value_only=True), st.guards, st.node
+    st = _s2
     terms = [st.value] + list(st.guards)
     # lists extended under a condition (parts.append(...)) belong to the value too
     for s_ in ex.stores:
